@@ -131,17 +131,26 @@ impl StreamStorage for FileStreamStorage {
             let topic_state = state.topics.remove(&topic.topic_id).unwrap();
             let load_topic = tokio::spawn(async move {
                 match topic.load(topic_state).await {
-                    Ok(_) => loaded_topics.lock().await.push(topic),
-                    Err(error) => error!(
-                        "Failed to load topic with ID: {} for stream with ID: {}. Error: {}",
-                        topic.topic_id, topic.stream_id, error
-                    ),
+                    Ok(_) => {
+                        loaded_topics.lock().await.push(topic);
+                        Ok(())
+                    }
+                    Err(error) => {
+                        error!(
+                            "Failed to load topic with ID: {} for stream with ID: {}. Error: {}",
+                            topic.topic_id, topic.stream_id, error
+                        );
+                        Err(error)
+                    }
                 }
             });
             load_topics.push(load_topic);
         }
 
-        join_all(load_topics).await;
+        for load_result in join_all(load_topics).await {
+            // A topic that cannot be loaded must not silently disappear from its stream.
+            load_result.map_err(|_| IggyError::CannotReadTopics(stream.stream_id))??;
+        }
         for topic in loaded_topics.lock().await.drain(..) {
             if stream.topics.contains_key(&topic.topic_id) {
                 error!(
